@@ -880,19 +880,77 @@ def analyze(cases, mobs_all):
     return dict(props=summ, histograms={k: dict(v) for k, v in hist.items()}, harness_errs=harness_errs)
 
 
+def show_ip(b):
+    b = list(b)
+    if b[:1] == [4]:
+        return '.'.join(str(x) for x in b[1:5])
+    return ':'.join('%02x%02x' % (b[i], b[i + 1]) for i in range(1, min(len(b), 17) - 1, 2))
+
+
 def describe(c):
+    """a readable rendering of the input of a case (for replay files and samples)"""
     k = c['cfg'][0]
     d = dict(kind=KIND_NAMES.get(k, k), cfg=c['cfg'])
     try:
         if k == 1:
             x = dec_pg_cfg(c['labels'][0])
-            d['config'] = {f: (show(v) if isinstance(v, tuple) and f not in ('connect_timeout', 'keepalives_idle', 'manager', 'pool') else v)
-                           for f, v in x.items() if v is not None}
-            d['outcome'] = c['obs'][0][0]
+            r = {}
+            for f, v in x.items():
+                if v is None:
+                    continue
+                if f in ('url', 'user', 'password', 'dbname', 'options', 'application_name', 'host'):
+                    r[f] = show(v)
+                elif f == 'hosts':
+                    r[f] = [show(h) for h in v]
+                elif f == 'hostaddr':
+                    r[f] = show_ip(v)
+                elif f == 'hostaddrs':
+                    r[f] = [show_ip(h) for h in v]
+                elif f in ('connect_timeout', 'keepalives_idle'):
+                    r[f] = '%ds+%dns' % v
+                elif f == 'ssl_mode':
+                    r[f] = ['Disable', 'Prefer', 'Require'][v]
+                elif f == 'target_session_attrs':
+                    r[f] = ['Any', 'ReadWrite'][v]
+                elif f == 'channel_binding':
+                    r[f] = ['Disable', 'Prefer', 'Require'][v]
+                elif f == 'load_balance_hosts':
+                    r[f] = ['Disable', 'Random'][v]
+                elif f == 'manager':
+                    r[f] = ['Fast', 'Verified', 'Clean', 'Custom(%r)' % show(v[1])][v[0]]
+                elif f == 'pool':
+                    r[f] = dict(max_size=v[0], timeouts=dict(zip(['wait', 'create', 'recycle'], v[1])), queue_mode=['Fifo', 'Lifo'][v[2]])
+                else:
+                    r[f] = v
+            d['config'] = r
+            cu = Cur(c['labels'][2]) if len(c['labels']) > 2 else Cur([0])
+            d['env_USER'] = show(cu.opt(cu.str))
+            d['runtime'] = bool(c['cfg'][3])
+            d['outcome'] = {0: 'Ok', 1: 'InvalidUrl', 2: 'DbnameMissing', 3: 'DbnameEmpty', 9: 'panic'}.get(c['obs'][0][0]) if c.get('obs') else None
+        elif k in (2, 3, 4):
+            cu = Cur(c['labels'][0])
+            if k == 2:
+                u = cu.opt(cu.str)
+                d['url'] = show(u)
+                d['connection'] = repr(cu.opt(lambda: dec_info(cu, False)))
+            else:
+                u = cu.opt(lambda: cu.list(cu.str))
+                d['urls'] = None if u is None else [show(x) for x in u]
+                if k == 4:
+                    d['server_type'] = ['Master', 'Replica'][cu.int()]
+                    d['master_name'] = show(cu.str())
+                d['connections'] = repr(cu.opt(lambda: cu.list(lambda: dec_info(cu, False))))
+            d['runtime'] = bool(c['cfg'][2])
+            d['contact_observed'] = bool(c['cfg'][3])
+        elif k == 6:
+            d['reader'] = 'lenient (config crate)' if c['cfg'][1] else 'typed (serde_json)'
+            d['type'] = ['PoolConfig', 'Timeouts', 'QueueMode'][c['cfg'][2]]
+            d['value'] = c['labels'][0]
+            d['tree_read'] = repr(dec_tree(Cur(c['labels'][1])))[:600] if len(c['labels']) > 1 else None
         else:
-            d['input_rows'] = [r[:60] for r in c['labels'][:2]]
-    except Exception:
-        pass
+            d['input_rows'] = [r[:80] for r in c['labels']]
+    except Exception as ex:
+        d['undecoded'] = repr(ex)
     return d
 
 
